@@ -111,6 +111,10 @@ def matrix(ctx, inp, text, fmt):
 
     p = ctx.tmp / f"in-{abs(hash(inp)) % 10**8}.{fmt}"
     p.write_text(text)
+    # the same content under names whose suffix says nothing, or something else: an explicit fmt decides
+    podd, pnone, pwrong = ctx.tmp / "in-odd.dat", ctx.tmp / "in-nosuffix", ctx.tmp / f"in-wrong.{'xyz' if fmt == 'mol2' else 'mol2'}"
+    for q in (podd, pnone, pwrong):
+        q.write_text(text)
     n_mols = text.count("@<TRIPOS>MOLECULE") if fmt == "mol2" else len(ml.Molecule.loads_all_xyz(text))
     otypes = [("molecule", ml.Molecule), ("ensemble", ml.ConformerEnsemble), (ml.Molecule, ml.Molecule),
               (ml.Structure, ml.Structure), (ml.ConformerEnsemble, ml.ConformerEnsemble)]
@@ -119,7 +123,10 @@ def matrix(ctx, inp, text, fmt):
         for name in (None, "Z"):
             sig = (oname, name)
             # ---------------- load (Path, str path, explicit fmt)
-            for src_kind, src, kw in (("Path", p, {}), ("str", str(p), {}), ("Path+fmt", p, {"fmt": fmt})):
+            other = "xyz" if fmt == "mol2" else "mol2"
+            for src_kind, src, kw in (("Path", p, {}), ("str", str(p), {}), ("Path+fmt", p, {"fmt": fmt}),
+                                      ("odd-suffix+fmt", podd, {"fmt": fmt}), ("no-suffix+fmt", pnone, {"fmt": fmt}),
+                                      ("wrong-suffix+fmt", pwrong, {"fmt": fmt})):
                 case = inp + ("load", src_kind) + sig
                 if not ctx.want(case):
                     continue
@@ -154,14 +161,15 @@ def matrix(ctx, inp, text, fmt):
                         ctx.violation(f"{fnname}:{fmt}:{oname}:raises-{type(gerr).__name__}-instead-of-ValueError", case=case,
                                       err=repr(gerr)[:200])
             else:
-                for src_kind, src in (("Path", p), ("str", str(p))):
+                for src_kind, src, kw in (("Path", p, {}), ("str", str(p), {}), ("odd-suffix+fmt", podd, {"fmt": fmt}),
+                                          ("wrong-suffix+fmt", pwrong, {"fmt": fmt})):
                     case = inp + ("load_all", src_kind) + sig
                     if not ctx.want(case):
                         continue
                     ctx.count("cell.load_all")
                     ctx.case(case, dkey=case, nontrivial=n_mols >= 2, sample={"call": "load_all", "fmt": fmt, "otype": oname, "name": name})
                     want, werr = attempt(lambda: getattr(T, f"load_all_{fmt}")(p, name=name))
-                    got, gerr = attempt(lambda: ml.load_all(src, otype=oarg, name=name))
+                    got, gerr = attempt(lambda: ml.load_all(src, otype=oarg, name=name, **kw))
                     judge(ctx, case, f"load_all:{fmt}:{oname}", got, gerr, want, werr, name, want_list=True)
                 case = inp + ("loads_all", "text") + sig
                 if ctx.want(case):
@@ -345,6 +353,31 @@ def run_errors(ctx):
             elif not isinstance(err, ValueError):
                 ctx.violation(f"{cname}:unsupported-format-raises-{type(err).__name__}-instead-of-ValueError", case=case, fmt=fmt,
                               err=repr(err)[:200])
+    # an explicit unsupported fmt is refused even when the file name has a supported suffix
+    good = ctx.tmp / "good.mol2"
+    good.write_text(text)
+    for cname, fn in (("load", lambda: ml.load(good, fmt="qqq")), ("load_all", lambda: ml.load_all(good, fmt="qqq")),
+                      ("dump-path", lambda: ml.dump(mol, ctx.tmp / "o.mol2", "qqq"))):
+        case = ("error", cname, "explicit-fmt-over-good-suffix")
+        ctx.count("cell.error")
+        ctx.case(case, dkey=case, nontrivial=False)
+        _, err = attempt(fn)
+        if err is None:
+            ctx.violation(f"{cname}:explicit-unsupported-format-ignored-in-favour-of-suffix", case=case)
+        elif not isinstance(err, ValueError):
+            ctx.violation(f"{cname}:unsupported-format-raises-{type(err).__name__}-instead-of-ValueError", case=case)
+    # cdxml can be read but not written
+    for cname, fn in (("dumps", lambda: ml.dumps(mol, "cdxml")), ("dump-stream", lambda: ml.dump(mol, io.StringIO(), "cdxml")),
+                      ("dump-path", lambda: ml.dump(mol, ctx.tmp / "o.cdxml")),
+                      ("dump-path", lambda: ml.dump(mol, str(ctx.tmp / "o2.cdxml"), "cdxml", mode="w"))):
+        case = ("error", cname, "cdxml-output")
+        ctx.count("cell.error")
+        ctx.case(case, dkey=case, nontrivial=False)
+        got, err = attempt(fn)
+        if err is None:
+            ctx.violation(f"{cname}:unsupported-format-accepted", case=case, fmt="cdxml", returned=repr(got)[:40])
+        elif not isinstance(err, ValueError):
+            ctx.violation(f"{cname}:unsupported-format-raises-{type(err).__name__}-instead-of-ValueError", case=case, fmt="cdxml")
     # cdxml from a string: documented as file-only
     case = ("error", "loads", "cdxml")
     ctx.count("cell.error")
